@@ -119,10 +119,23 @@ fn one_run(a: &Args, rng: &mut Rng, ctx: &mut Ctx, n_ops: usize) -> Result<(), S
             let m = &mut maps[ai];
             // acquire handles in all the ways the API offers
             if rng.chance(1, 6) && m.handles.len() < 6 {
-                let (h, kind): (Box<dyn DynMap>, &'static str) = match rng.below(3) {
-                    0 => (m.handles[0].0.clone_box(), "clone"),
-                    1 => (open_dyn(&db, m.kt, &m.name, &Cfg::small(4)).map_err(|e| e.to_string())?, "second_lookup"),
-                    _ => (open_dyn(&db2, m.kt, &m.name, &m.cfg).map_err(|e| e.to_string())?, "lookup_via_db_clone"),
+                let which = rng.below(3);
+                let kind: &'static str = ["clone", "second_lookup", "lookup_via_db_clone"][which as usize];
+                let looked = guarded(crate::session::STEP_BUDGET_BASE, || match which {
+                    0 => Ok(m.handles[0].0.clone_box()),
+                    1 => open_dyn(&db, m.kt, &m.name, &Cfg::small(4)),
+                    _ => open_dyn(&db2, m.kt, &m.name, &m.cfg),
+                });
+                let h = match looked {
+                    Guard::Ok(Ok(h)) => h,
+                    Guard::Ok(Err(e)) => {
+                        violation = Some(format!("map {}: obtaining another handle ({kind}) for the open map failed: {e}", m.name));
+                        break;
+                    }
+                    Guard::Hang(e) | Guard::Panic(e) => {
+                        violation = Some(format!("map {}: obtaining another handle ({kind}) for the open map panicked instead of aliasing the open state: {e}", m.name));
+                        break;
+                    }
                 };
                 ctx.count(&format!("handles.{kind}"), 1);
                 m.handles.push((h, kind));
